@@ -84,6 +84,12 @@ def main(tier, seed):
             silent_cases.append(dict(label=[name, 'unusable_pdata_every_6s_after_step', k], acceptor=acceptor,
                                      ops=base + [('idle',)] + [('tick', 6), ('seg', bad), ('idle',), ('idle',)] * 3 +
                                      [('tick', 1)] + [('idle',)] * 3))
+            # a header announcing 2^31 bytes (top bit set), never completed: ARTIM / the disconnection ends it all the same
+            if k <= 1:
+                silent_cases.append(dict(label=[name, 'huge_length_header_then_silence', k], acceptor=acceptor,
+                                         ops=base + [('seg', b'\x01\x00\x80\x00\x00\x00'), ('idle',)] + SILENCE_TAIL))
+                rest_cases.append(dict(label=[name, 'huge_length_header_then_close', k], acceptor=acceptor,
+                                       ops=base + [('seg', b'\x04\x00\xff\xff\xff\xfa' + b'zz'), ('idle',)] + CLOSE_TAIL))
             # stop requested at this quiescent point
             stop_cases.append(dict(label=[name, 'kill_after_step', k], acceptor=acceptor, ops=base + [('kill',)]))
             # peer disconnects after every byte prefix of its next PDU
